@@ -56,14 +56,15 @@ func (r *msgReceiver) ReadFully() (message []byte, metadata map[string][]byte, e
 	}
 
 	msgSize := int(binary.BigEndian.Uint64(firstChunk.Content))
+	if msgSize < 0 {
+		return nil, firstChunk.Metadata, errors.New(ErrInvalidMessageSize)
+	}
 
-	b := make([]byte, msgSize)
-	read := 0
+	// the announced size is not trusted: the buffer grows as the payload arrives
+	b := make([]byte, 0, min(msgSize, len(firstChunk.Content)-8))
+	b = appendUpTo(b, firstChunk.Content[8:], msgSize)
 
-	copy(b, firstChunk.Content[8:])
-	read += len(firstChunk.Content) - 8
-
-	for read < msgSize {
+	for len(b) < msgSize {
 		chunk, err := r.stream.Recv()
 		if err == io.EOF {
 			break
@@ -72,15 +73,22 @@ func (r *msgReceiver) ReadFully() (message []byte, metadata map[string][]byte, e
 			return b, firstChunk.Metadata, err
 		}
 
-		copy(b[read:], chunk.Content)
-		read += len(chunk.Content)
+		b = appendUpTo(b, chunk.Content, msgSize)
 	}
 
-	if read < msgSize {
+	if len(b) < msgSize {
 		return b, firstChunk.Metadata, io.EOF
 	}
 
 	return b, firstChunk.Metadata, nil
+}
+
+// appendUpTo appends data to b without letting b grow beyond size bytes
+func appendUpTo(b []byte, data []byte, size int) []byte {
+	if len(data) > size-len(b) {
+		data = data[:size-len(b)]
+	}
+	return append(b, data...)
 }
 
 // Read read fill message with received data and return the number of read bytes or error. If no message is present it returns 0 and io.EOF. If the message is complete it returns 0 and nil, in that case successive calls to Read will returns a new message.
